@@ -8,7 +8,8 @@
      4. the walk as written equals the corrected walk when no entry follows the end of two or more
         nested blocks                                                         (walk_agree, partial)
      5. attachment: items of model and spec agree whenever the object gates do (object_items_agree)
-     6. the D6 witness                                                         (refuted)            *)
+     6. the D6 witness                                                         (refuted)
+     9. every atom of every gate is an own cfg written somewhere in the description (gate_atoms_are_written) *)
 From Coq Require Import ZArith NArith List Bool String Ascii Arith Lia Sorted.
 From DD Require Import Common Mir Cfg.
 Import ListNotations.
@@ -867,3 +868,187 @@ Lemma never_panics : forall objs,
   (exists gs, propagate_cfg objs = Ok gs /\ List.length gs = List.length (preorder objs)) /\
   (exists gs, propagate_cfg_fixed objs = Ok gs /\ List.length gs = List.length (preorder objs)).
 Proof. intro objs; split; [exact (propagate_cfg_total objs) | exact (propagate_cfg_fixed_total objs)]. Qed.
+
+(* ------------------------------------------------------------------ 9. no gate tests a predicate nobody wrote *)
+
+(* atoms of an item, attribute or effective predicate *)
+Definition item_atom (it : item (list string)) (a : string) : Prop := In a (it_attr it) \/ In a (it_eff it).
+
+Lemma variant_item_atoms : forall en eg v a,
+  item_atom (variant_item own_atoms (@app string) en eg v) a -> In a (own_atoms (v_cfg v)) \/ In a eg.
+Proof.
+  intros en eg v a [Ha | Ha]; cbn [variant_item it_attr it_eff] in Ha.
+  - left; exact Ha.
+  - apply in_app_or in Ha. exact Ha.
+Qed.
+
+Lemma field_enum_items_atoms : forall g f it a,
+  In it (field_enum_items own_atoms (@app string) g f) -> item_atom it a ->
+  In a g \/ In a (field_written_atoms f).
+Proof.
+  intros g f it a Hin Ha. unfold field_enum_items in Hin. unfold field_written_atoms.
+  destruct (f_conv f) as [[tn ut | e ut] |]; cbn [In] in Hin; try contradiction.
+  destruct Hin as [E | Hin].
+  - subst it. assert (Hx : In a (own_atoms (f_cfg f) ++ g)).
+    { destruct Ha as [Ha | Ha]; exact Ha. }
+    apply in_app_or in Hx. destruct Hx as [Hx | Hx]; [right; apply in_or_app; left; exact Hx | left; exact Hx].
+  - apply in_map_iff in Hin. destruct Hin as (v & E & Hv). subst it.
+    apply variant_item_atoms in Ha. destruct Ha as [Ha | Ha].
+    + right. apply in_or_app. right. apply in_flat_map. exists v. split; assumption.
+    + apply in_app_or in Ha. destruct Ha as [Ha | Ha]; [right; apply in_or_app; left; exact Ha | left; exact Ha].
+Qed.
+
+Lemma field_accessor_items_atoms : forall set g f it a,
+  In it (field_accessor_items own_atoms (@app string) set g f) -> item_atom it a ->
+  In a g \/ In a (field_written_atoms f).
+Proof.
+  intros set g f it a Hin Ha. unfold field_accessor_items in Hin. unfold field_written_atoms.
+  assert (Hx : In a (own_atoms (f_cfg f) ++ g)).
+  { apply in_app_or in Hin.
+    destruct Hin as [Hin | Hin];
+      [destruct (readable (f_access f)) | destruct (writable (f_access f))];
+      cbn [In] in Hin; try contradiction;
+      destruct Hin as [E | []]; subst it; cbn [it_attr it_eff] in Ha;
+      (destruct Ha as [Ha | Ha]; [apply in_or_app; left; exact Ha | exact Ha]). }
+  apply in_app_or in Hx. destruct Hx as [Hx | Hx]; [right; apply in_or_app; left; exact Hx | left; exact Hx].
+Qed.
+
+Lemma plain_atoms : forall k (g : list string) a, item_atom (plain k g) a -> In a g.
+Proof. intros k g a [Ha | Ha]; exact Ha. Qed.
+
+Lemma field_set_items_atoms : forall set size g fs it a,
+  In it (field_set_items own_atoms (@app string) set size g fs) -> item_atom it a ->
+  In a g \/ In a (flat_map field_written_atoms fs).
+Proof.
+  intros set size g fs it a Hin Ha. unfold field_set_items in Hin.
+  destruct (size =? 0)%Z; [contradiction |].
+  destruct Hin as [E | [E | Hin]]; try (subst it; left; eapply plain_atoms; exact Ha).
+  apply in_flat_map in Hin. destruct Hin as (f & Hf & Hin).
+  destruct (field_accessor_items_atoms _ _ _ _ _ Hin Ha) as [H | H]; [left; exact H |].
+  right. apply in_flat_map. exists f. split; assumption.
+Qed.
+
+Lemma flat_map_enum_items_atoms : forall g fs it a,
+  In it (flat_map (field_enum_items own_atoms (@app string) g) fs) -> item_atom it a ->
+  In a g \/ In a (flat_map field_written_atoms fs).
+Proof.
+  intros g fs it a Hin Ha. apply in_flat_map in Hin. destruct Hin as (f & Hf & Hin).
+  destruct (field_enum_items_atoms _ _ _ _ Hin Ha) as [H | H]; [left; exact H |].
+  right. apply in_flat_map. exists f. split; assumption.
+Qed.
+
+Lemma object_items_atoms : forall g o it a,
+  In it (object_items own_atoms (@app string) g o) -> item_atom it a ->
+  In a g \/ In a (flat_map field_written_atoms (object_fields o)).
+Proof.
+  intros g o it a Hin Ha. unfold object_items in Hin.
+  destruct Hin as [E | Hin]; [subst it; left; eapply plain_atoms; exact Ha |].
+  destruct o as [c n off rep objs | r | c | b | c n ov]; cbn [object_fields].
+  - destruct Hin as [E | [E | []]]; subst it; left; eapply plain_atoms; exact Ha.
+  - apply in_app_or in Hin. destruct Hin as [Hin | Hin].
+    { destruct (readable (rg_access r)); [| contradiction].
+      destruct Hin as [E | []]; subst it; left; eapply plain_atoms; exact Ha. }
+    apply in_app_or in Hin. destruct Hin as [Hin | Hin].
+    + eapply field_set_items_atoms; eassumption.
+    + eapply flat_map_enum_items_atoms; eassumption.
+  - rewrite flat_map_app.
+    apply in_app_or in Hin. destruct Hin as [Hin | Hin].
+    { destruct (field_set_items_atoms _ _ _ _ _ _ Hin Ha) as [H | H]; [left; exact H |].
+      right. apply in_or_app. left. exact H. }
+    apply in_app_or in Hin. destruct Hin as [Hin | Hin].
+    { destruct (field_set_items_atoms _ _ _ _ _ _ Hin Ha) as [H | H]; [left; exact H |].
+      right. apply in_or_app. right. exact H. }
+    destruct (flat_map_enum_items_atoms _ _ _ _ Hin Ha) as [H | H]; [left; exact H |].
+    right. rewrite <- flat_map_app. exact H.
+  - contradiction.
+  - contradiction.
+Qed.
+
+Lemma leaf_object_items_atoms : forall o path it a,
+  match o with OBlock _ _ _ _ _ => False | _ => True end ->
+  In it (spec_object_items path o) -> item_atom it a ->
+  In a path \/ In a (object_written_atoms o).
+Proof.
+  intros o path it a Hleaf Hin Ha.
+  assert (Hin' : In it (object_items own_atoms (@app string) (own_atoms (object_cfg o) ++ path) o)).
+  { destruct o; [contradiction | | | |]; cbn [spec_object_items] in Hin; rewrite app_nil_r in Hin; exact Hin. }
+  assert (Hw : object_written_atoms o
+               = own_atoms (object_cfg o) ++ flat_map field_written_atoms (object_fields o) ++ []).
+  { destruct o; [contradiction | | | |]; reflexivity. }
+  rewrite Hw. destruct (object_items_atoms _ _ _ _ Hin' Ha) as [H | H].
+  - apply in_app_or in H.
+    destruct H as [H | H]; [right; apply in_or_app; left; exact H | left; exact H].
+  - right. apply in_or_app. right. apply in_or_app. left. exact H.
+Qed.
+
+(* every atom of an item of the subtree of [o] is on the path above [o] or written inside [o] *)
+Lemma spec_object_items_atoms : forall o path it a,
+  In it (spec_object_items path o) -> item_atom it a ->
+  In a path \/ In a (object_written_atoms o).
+Proof.
+  induction o as [c n off rep objs IH | r | c | b | c n ov] using object_tree_ind;
+    intros path it a Hin Ha.
+  - cbn [spec_object_items] in Hin. cbn [object_written_atoms object_cfg object_fields flat_map] in *.
+    cbn [app].
+    apply in_app_or in Hin. destruct Hin as [Hin | Hin].
+    + destruct (object_items_atoms _ _ _ _ Hin Ha) as [H | H]; [| contradiction].
+      cbn [object_cfg] in H. apply in_app_or in H.
+      destruct H as [H | H]; [right; apply in_or_app; left; exact H | left; exact H].
+    + apply in_flat_map in Hin. destruct Hin as (o & Ho & Hin).
+      rewrite Forall_forall in IH. destruct (IH o Ho _ _ _ Hin Ha) as [H | H].
+      * apply in_app_or in H.
+        destruct H as [H | H]; [right; apply in_or_app; left; exact H | left; exact H].
+      * right. apply in_or_app. right. apply in_flat_map. exists o. split; assumption.
+  - apply (leaf_object_items_atoms _ _ it); [exact I | exact Hin | exact Ha].
+  - apply (leaf_object_items_atoms _ _ it); [exact I | exact Hin | exact Ha].
+  - apply (leaf_object_items_atoms _ _ it); [exact I | exact Hin | exact Ha].
+  - apply (leaf_object_items_atoms _ _ it); [exact I | exact Hin | exact Ha].
+Qed.
+
+Lemma spec_item_atoms_are_written : forall d it a,
+  In it (spec_items d) -> item_atom it a -> In a (written_atoms d).
+Proof.
+  intros d it a Hin Ha. unfold spec_items in Hin. apply in_app_or in Hin. destruct Hin as [Hin | Hin].
+  - unfold root_items in Hin. destruct Hin as [E | [E | []]]; subst it;
+      apply plain_atoms in Ha; cbn [own_atoms] in Ha; contradiction.
+  - apply in_flat_map in Hin. destruct Hin as (o & Ho & Hin).
+    destruct (spec_object_items_atoms _ _ _ _ Hin Ha) as [[] | H].
+    unfold written_atoms. apply in_flat_map. exists o. split; assumption.
+Qed.
+
+Lemma spec_atoms_are_written : forall d it a,
+  In it (spec_items d) -> In a (it_eff it) -> In a (written_atoms d).
+Proof. intros d it a Hin Ha. eapply spec_item_atoms_are_written; [exact Hin | right; exact Ha]. Qed.
+
+Lemma spec_attr_atoms_are_written : forall d it a,
+  In it (spec_items d) -> In a (it_attr it) -> In a (written_atoms d).
+Proof. intros d it a Hin Ha. eapply spec_item_atoms_are_written; [exact Hin | left; exact Ha]. Qed.
+
+Lemma Forall2_in_l : forall {A B} (R : A -> B -> Prop) l1 l2 a,
+  Forall2 R l1 l2 -> In a l1 -> exists b, In b l2 /\ R a b.
+Proof.
+  intros A B R l1 l2 a H; induction H as [| x y l1 l2 Hxy H IH]; cbn [In]; [tauto |].
+  intros [E | Hin].
+  - subst x. exists y. split; [left; reflexivity | exact Hxy].
+  - destruct (IH Hin) as (b & Hb & Hr). exists b. split; [right; exact Hb | exact Hr].
+Qed.
+
+Theorem gate_atoms_are_written : forall d its, items_fixed d = Ok its ->
+  forall it a, In it its -> In a (atoms_x (it_eff it)) -> In a (written_atoms d).
+Proof.
+  intros d its Hf it a Hin Ha.
+  destruct (gates_are_conjunctions_fixed d) as (its' & Hf' & Hi & _).
+  assert (E : its' = its) by congruence. subst its'.
+  destruct (Forall2_in_l _ _ _ _ Hi Hin) as (s & Hs & _ & _ & He).
+  eapply spec_atoms_are_written; [exact Hs | apply He, Ha].
+Qed.
+
+Theorem attr_atoms_are_written : forall d its, items_fixed d = Ok its ->
+  forall it a, In it its -> In a (atoms_x (it_attr it)) -> In a (written_atoms d).
+Proof.
+  intros d its Hf it a Hin Ha.
+  destruct (gates_are_conjunctions_fixed d) as (its' & Hf' & Hi & _).
+  assert (E : its' = its) by congruence. subst its'.
+  destruct (Forall2_in_l _ _ _ _ Hi Hin) as (s & Hs & _ & Hat & _).
+  eapply spec_attr_atoms_are_written; [exact Hs | apply Hat, Ha].
+Qed.
